@@ -1,4 +1,12 @@
 import FlatModel.Props.C01
+import FlatModel.Props.Universe
+import FlatModel.Props.UniverseOps
 #print axioms FC.C01.roundtrip
 #print axioms FC.C01.refused
 #print axioms FC.reachable_inv
+#print axioms FC.Universe.lawful
+#print axioms FC.Universe.lawfulDense
+#print axioms FC.Universe.C01_every_composition
+#print axioms FC.Universe.C01_reachable
+#print axioms FC.Universe.consec_collapse_unlawful
+#print axioms FC.Universe.C01_reach_every_composition
